@@ -299,6 +299,8 @@ def build_ops():
     _op("element.setitem", [("elem",), keys, vals], _setitem, ("_data",))
     _op("element.delitem", [("elem",), keys], _delitem, ("_data",))
     _op("element.pop", [("elem",), keys], lambda o, k: o.pop(k), ("_data",))
+    # the policy tag of an element (only an orphan root may change it; the whole tree below follows)
+    _op("element.set_ns", [("elem",), ("lit", ("EDIF", "DEFAULT", "BOGUS"))], lambda o, v: _setitem(o, ".NS", v), ("_data",))
     # clone (used by C10/C07 tails)
     _op("clone", [("clonable",)], _clone_marked)
     return OPS
